@@ -634,6 +634,12 @@ class SymIter:
 
 def sym_len(interp, st, v, node=None):
     I = _I()
+    if isinstance(v, I.ObjMethod):
+        v = v.value
+    if I.is_obj(v):
+        n_ = z3.Function("obj.len", I.OBJ_SORT, z3.IntSort())(v)
+        st.assume(n_ >= 0)
+        return n_
     if isinstance(v, (list, tuple, dict, str)):
         return len(v)
     if isinstance(v, Arr):
